@@ -7,6 +7,7 @@ import (
 	"net"
 	"time"
 
+	"github.com/tokenized/bitcoin_reader/headers"
 	"github.com/tokenized/config"
 	"github.com/tokenized/pkg/bitcoin"
 	"github.com/tokenized/pkg/wire"
@@ -59,6 +60,9 @@ func (c *symConn) SetWriteDeadline(t time.Time) error { return nil }
 type spyHeaders struct {
 	processed  int
 	verifyOK   func(h *wire.BlockHeader) bool
+	verifyErr  error // returned when verifyOK says no (default: unknown header)
+	verified   int   // VerifyHeader calls that returned nil
+	refused    int   // VerifyHeader calls that returned an error
 	processErr error
 	locators   int
 }
@@ -82,9 +86,14 @@ func (s *spyHeaders) GetVerifyOnlyLocatorHashes(ctx context.Context) ([]bitcoin.
 }
 func (s *spyHeaders) VerifyHeader(ctx context.Context, h *wire.BlockHeader) error {
 	if s.verifyOK != nil && s.verifyOK(h) {
+		s.verified++
 		return nil
 	}
-	return ErrWrongNetwork
+	s.refused++
+	if s.verifyErr != nil {
+		return s.verifyErr
+	}
+	return headers.ErrUnknownHeader
 }
 func (s *spyHeaders) ProcessHeader(ctx context.Context, h *wire.BlockHeader) error {
 	s.processed++
